@@ -13,24 +13,63 @@ prop("C10", "fault_enumeration",
      "and hidden run (captured once per process) and the most recent datagrams of THIS case's honest traffic (including the "
      "held-back message) with one header field mutated (type byte, bytes 1/2/3 = version/reserved, certificate-length field in "
      "{0,1,0xffff,len-1,len+1}, counter), bytes 4..8 replaced by a live / unknown session id, truncated to a drawn length or "
-     "padded; bare public headers (type 0x10/0x80/other + live or unknown session id) with 0..64 body bytes; and honest protocol "
+     "padded; the length field (bytes 2..3) set to a drawn value N AND the datagram resized so that field and real length AGREE "
+     "(for every message type that carries a length field - ServerAuth, ClientAuth, ClientRequestHidden, ServerResponseHidden - "
+     "on any template, the type byte optionally replaced by one of those; N, taken as the field value or as the length of the whole "
+     "datagram, drawn around every size constant of the package: 0, 2^8, 2^14, 2^15, MaxPlaintextSize, MaxTotalPacketSize, 65507, "
+     "65535 +-2, uniformly in 0..65535 and in MaxTotalPacketSize-4096..65535, or the message's own value -16..+2; exact or off by "
+     "-1/+1/+17); bare public headers "
+     "(type 0x10/0x80/other + live or unknown session id) with 0..64 body bytes; transport / control / unknown-type datagrams "
+     "built by the real sealing code (SessionState.sealPacketLocked) under a key that needs no secret (all-zero, all-0xFF, the "
+     "session id repeated, 00 01 02.., the protocol name, 16 public bytes of the most recent handshake datagram; a random key as "
+     "control) with counter 0 / 1 / highest seen on the wire for that id +1 / that highest one again / random / 2^64-1 and 0..1400 "
+     "plaintext bytes (a 1-byte control plaintext is a Close), naming an established, closed, PENDING (allocated by a ClientAck, "
+     "handshake not finished) or unknown session id; and honest protocol "
      "speakers with hostile parameters: clients whose VerifyConfig.Name is empty / 252 / 253 bytes / unknown id type / glob "
      "metacharacters / other hosts, a white-box client that puts arbitrary bytes (block size, id type, label length, label) into "
      "the encrypted server-name field of a ClientAck with a valid cookie, hidden-mode clients configured with each of three "
-     "certificates' KEM keys. Oracle: the process survives (a panic in the Serve / listen / handshake goroutines kills it; the "
+     "certificates' KEM keys, and white-box peers that run the unauthenticated part of the key exchange and therefore CHOOSE THE "
+     "PLAINTEXT of the encrypted certificate field with a correct tag (ClientAuth after an honest ClientHello/ClientAck against "
+     "discoverable servers; hidden requests made with the public KEM key of each virtual host against every server): 0..63000 "
+     "bytes of genuine certificate vectors / random bytes / random bytes in well-formed vectors, the first and the second 16-bit "
+     "vector length prefix kept or set relative to the room that is left (fills it exactly, 1/2/3 bytes past it, room for an empty "
+     "second vector, 0, 0xffff) - the vectors are split and handed to the certificate parser before the peer is authenticated. Oracle: the process survives (a panic in the Serve / listen / handshake goroutines kills it; the "
      "driver recovers the case from the current-*.json file); a handshaking client's Handshake returns; Server.Close returns; no "
      "goroutine is left after closing everything; afterwards an honest handshake from a FRESH address (aimed at a drawn virtual "
      "host) completes and carries one message each way; every session established before the junk and not closed by its owner "
      "still carries a message each way. The sweep enumerates every truncation length of each of the 10 captured messages x "
      "{original first byte, each other valid type byte} x {bytes 4..8 kept, live session id} against 7 server "
-     "state/configuration pairs and 5 client states. Non-trivial = at least one structured (derived-from-valid or "
-     "hostile-parameter) datagram aimed at a non-idle state; distinct by (target, state, configuration, set of datagram classes). "
+     "state/configuration pairs and 5 client states; then, against the same 12 scenarios, every message type with a length field "
+     "(table message and the case's own most recent message of that type) x consistent resize to each of the 22 boundary values "
+     "x {field value, datagram length} x {exact, -1, +1} and the message's own vector -2..+2 bytes (resized, and field alone; one "
+     "case per datagram against a server with a handshake in progress), every chosen-plaintext certificate field {first prefix "
+     "position x 9, second x 6} x {genuine, random} x {natural, 8, 300 bytes} as ClientAuth / hidden request, and every sealed shape {Transport, Control, 0x11} x 6 guessable keys x "
+     "3 counters x {pending-or-first-live, second live, unknown id} x {1, 16} plaintext bytes. Unit 'stress' (REAL time, outside "
+     "any bubble - inside a bubble a timer callback never overlaps packet processing): a real Server on simnet with 1-2 honest "
+     "sessions, its HandshakeTimeout set to 1..10 ms (white-box, under the server's table lock; 3 s while honest handshakes run), "
+     "1-3 goroutines that walk through ClientHello/ClientAck from ever new addresses and abandon the handshake (150-600 per case; "
+     "each leaves a timeout callback behind) and 1-4 goroutines that stream transport / control / 0x11-typed datagrams (bodies "
+     "0..100 bytes, every 32nd sealed under the all-zero key) naming established, pending (read from the ServerAuth) and unknown "
+     "session ids, paced by the server socket's backlog, optionally with Server.Close in the middle; then the same oracle "
+     "(honest handshake from a fresh address + a message each way, established sessions carry a message each way, Close "
+     "returns). Slowness is never a violation there: a failed or unfinished oracle (or a receive loop seen waiting for a mutex "
+     "twice in a row) only starts the PROOF - goroutine dumps over 8 s (longer than every timeout in the unit): the same "
+     "goroutine of the receive loop / the caller of Close waits for a sync.Mutex/RWMutex at the same frames in every dump and no "
+     "goroutine is runnable or sleeping inside the code under test in at least 2/3 of the dumps -> "
+     "C10:endpoint-wedged:<mutex waiters>:real-time-stress; otherwise the case is inconclusive. "
+     "Non-trivial = at least one structured (derived-from-valid or "
+     "hostile-parameter) datagram aimed at a non-idle state (stress: >= 20 abandoned handshakes and >= 1000 session-typed "
+     "datagrams); distinct by (target, state, configuration, set of datagram classes). "
      "The exhaustive flag refers to the sweep in the thorough tier only, and only when no datagram of it had to be excluded "
      "because of an open finding (quick: handshaking clients see server-sent messages with the types a client reads and only "
      "the first 64 bytes of client-sent messages). Trigger classes of process-killing findings "
      "that are listed open are excluded by construction and counted (excluded_by_construction / labels excluded:<sig>).",
      ["junk is never authentic for a live session: no datagram sealed with a live session's keys is injected (the only messages "
-      "that may legitimately end a session); replays of already delivered genuine datagrams are included",
+      "that may legitimately end a session); replays of already delivered genuine datagrams are included; datagrams sealed under "
+      "keys that need no secret are junk (a session key equals one of them with negligible probability)",
+      "stress unit: the wedge proof trusts the goroutine dump (wait reasons sync.Mutex.Lock / sync.RWMutex.RLock / .Lock; parser "
+      "self-tested on a parked goroutine at the start of the test); changing HandshakeTimeout on a running server is a harness "
+      "device (the field is only read under the table's write lock, where the harness writes it)",
       "the probe handshake comes from a fresh address (a half-open handshake legitimately blocks its own address until "
       "HandshakeTimeout) and the application keeps calling Accept (as hopserver does), so the pending-connections queue is never full",
       "a case lasts < 2 virtual minutes (no cookie-key rotation inside a handshake); client HSTimeout 2 s, server HandshakeTimeout 5 s",
@@ -40,12 +79,16 @@ prop("C10", "fault_enumeration",
       "live values come from the case's own traffic"],
      [dict(name="random", pkg="transport", run="^TestVerifC10Random$", shards=dict(quick=16, thorough=16), thorough_scale=60, timeout=dict(quick=900, thorough=7200)),
       dict(name="sweep", pkg="transport", run="^TestVerifC10Sweep$", shards=dict(quick=16, thorough=16), timeout=dict(quick=900, thorough=7200)),
+      dict(name="stress", pkg="transport", run="^TestVerifC10Stress$", shards=dict(quick=4, thorough=4), thorough_scale=20, timeout=dict(quick=900, thorough=3600)),
       dict(name="fuzz", kind="fuzz", pkg="transport", targets=["FuzzVerifC10ServerDatagram", "FuzzVerifC10ClientDatagram"], fuzztime=120, thorough_only=True)],
      exhaustive_core=True,
      text="Hostile-datagram search against real transport endpoints under a virtual clock: generated junk sequences (random, "
           "truncated / field-mutated valid messages, copied public headers, hostile server names, hidden requests for every "
           "certificate) hit servers and clients in every state and configuration; crash, liveness of established sessions and "
-          "success of a later honest handshake are checked; plus an enumerated sweep of every truncation x type byte.",
-     note="trusts testing/synctest, simnet and the re-implemented vhost closures; cryptography is not attacked (junk never carries a valid AEAD tag for a live session)",
-     technique="structured fuzzing / property-based testing (rapid) of datagram sequences + enumerated truncation and type-byte sweep; native fuzzing in the thorough tier",
+          "success of a later honest handshake are checked; plus an enumerated sweep of every truncation x type byte, of "
+          "consistently resized length fields at every buffer-size boundary and of datagrams sealed under guessable keys; plus a "
+          "real-time stress unit (abandoned handshakes with a millisecond handshake timeout racing session-typed datagrams) whose "
+          "only verdict is a deadlock proven from goroutine dumps.",
+     note="trusts testing/synctest, simnet, the re-implemented vhost closures and (stress unit) the runtime's goroutine dump; cryptography is not attacked (junk never carries a valid AEAD tag for a live session)",
+     technique="structured fuzzing / property-based testing (rapid) of datagram sequences + enumerated truncation, type-byte, length-boundary and guessable-key sweep; generated real-time stress schedules with a deadlock-proof oracle; native fuzzing in the thorough tier",
      design="DESIGN.md section 4, C10")
